@@ -4,11 +4,16 @@ package main
 
 import (
 	"fmt"
+	"io/fs"
 	"math/rand"
 	"strings"
+	"testing/fstest"
+	"time"
 
 	"github.com/wokdav/gopki/generator/config"
 	v1 "github.com/wokdav/gopki/generator/config/v1"
+	"github.com/wokdav/gopki/generator/db"
+	"github.com/wokdav/gopki/generator/db/filesystem"
 )
 
 func init() {
@@ -175,6 +180,72 @@ func validateCase(ao int, p []int, nilAttrs bool, s []int) {
 	fmt.Fprintf(out, "V %d|%s|%s|%d|%d\n", ao, ps, join(s), r, same)
 }
 
+// the same decision reached through an open database: the entity is built under a lenient profile, the profile is then replaced
+// (AddProfile) by the one of the case, and the next run is planned with "generate all" - it must be refused exactly when the
+// subject does not validate, before anything is generated
+func validateSessionCase(ao int, p []int, s []int) {
+	attrs := make([]config.ProfileSubjectAttribute, len(p))
+	for i, x := range p {
+		name := "DC"
+		if x/2 < len(attrNames) {
+			name = attrNames[x/2]
+		}
+		attrs[i] = config.ProfileSubjectAttribute{Attribute: name, Optional: x%2 == 1}
+	}
+	parts := make([]string, len(s))
+	for i, t := range s {
+		parts[i] = attrNames[t] + "=v"
+	}
+	m := fstest.MapFS{".": &fstest.MapFile{Mode: 0777 | fs.ModeDir}}
+	t0 := time.Now().Add(-time.Hour)
+	m["e.yaml"] = &fstest.MapFile{Data: []byte("version: 1\nsubject: " + strings.Join(parts, ", ") + "\nprofile: p\nkeyAlgorithm: P-256\n"), Mode: 0644, ModTime: t0}
+	m["p.yaml"] = &fstest.MapFile{Data: []byte("version: 1\nname: p\n"), Mode: 0644, ModTime: t0}
+	r := -1
+	func() {
+		defer func() {
+			if rec := recover(); rec != nil {
+				fmt.Fprintf(out, "SELFFAIL validate-session %d|%s|%s: panic %v\n", ao, join(p), join(s), rec)
+			}
+		}()
+		d := filesystem.NewFilesystemDatabase(filesystem.NewMapFs(m))
+		if err := d.Open(); err != nil {
+			fmt.Fprintf(out, "SELFFAIL validate-session %d|%s|%s: open: %v\n", ao, join(p), join(s), err)
+			return
+		}
+		plan, err := db.PlanBulkUpdate(d, db.UpdateMissing)
+		if err == nil {
+			_, err = db.BulkUpdate(d, plan)
+		}
+		if err != nil {
+			fmt.Fprintf(out, "SELFFAIL validate-session %d|%s|%s: first run under the lenient profile failed: %v\n", ao, join(p), join(s), err)
+			return
+		}
+		before := string(m["e.pem"].Data)
+		if err := d.AddProfile(config.CertificateProfile{Name: "p", SubjectAttributes: config.ProfileSubjectAttributes{AllowOther: ao == 1, Attributes: attrs}}); err != nil {
+			fmt.Fprintf(out, "SELFFAIL validate-session %d|%s|%s: AddProfile: %v\n", ao, join(p), join(s), err)
+			return
+		}
+		plan, err = db.PlanBulkUpdate(d, db.UpdateAll)
+		if err != nil {
+			r = 0
+			if !strings.Contains(err.Error(), "validate") {
+				fmt.Fprintf(out, "NOTE validate-session %d|%s|%s: refused with another error: %v\n", ao, join(p), join(s), err)
+			}
+			if string(m["e.pem"].Data) != before {
+				fmt.Fprintf(out, "SELFFAIL validate-session %d|%s|%s: the refused run changed the artifact\n", ao, join(p), join(s))
+			}
+			return
+		}
+		r = 1
+		if _, err = db.BulkUpdate(d, plan); err != nil {
+			fmt.Fprintf(out, "NOTE validate-session %d|%s|%s: accepted, generation failed: %v\n", ao, join(p), join(s), err)
+		}
+	}()
+	if r >= 0 {
+		fmt.Fprintf(out, "V %d|%s|%s|%d|1\n", ao, join(p), join(s), r)
+	}
+}
+
 func streamValidate() {
 	sl := 4
 	if thorough() {
@@ -208,6 +279,18 @@ func streamValidate() {
 		for j := range s {
 			s[j] = rng.Intn(5)
 		}
-		validateCase(rng.Intn(2), p, false, s)
+		ao := rng.Intn(2)
+		validateCase(ao, p, false, s)
+		if i%100 == 0 {
+			validateSessionCase(ao, p, s)
+		}
+	}
+	// short profiles through the session path as well
+	for _, ao := range []int{0, 1} {
+		for _, p := range lists(8, 2)[1:] {
+			for _, s := range lists(5, 2)[1:] {
+				validateSessionCase(ao, p, s)
+			}
+		}
 	}
 }
